@@ -417,17 +417,22 @@ namespace AIToolbox::MDP {
         if (!isProbability(S, A, S, t))
             throw std::invalid_argument("Input transition matrix does not contain valid probabilities.");
 
-        // Then we copy.
+        // Then we copy. Entries indistinguishable from zero are not stored,
+        // so we build the new function on the side and verify that what we
+        // actually keep is still a probability before touching the model.
+        TransitionMatrix newTransitions(A, SparseMatrix2D(S, S));
         for ( size_t a = 0; a < A; ++a ) {
-            transitions_[a].setZero();
-
             for ( size_t s = 0; s < S; ++s )
             for ( size_t s1 = 0; s1 < S; ++s1 ) {
                 const double p = t[s][a][s1];
-                if ( checkDifferentSmall(0.0, p) ) transitions_[a].insert(s, s1) = p;
+                if ( checkDifferentSmall(0.0, p) ) newTransitions[a].insert(s, s1) = p;
             }
-            transitions_[a].makeCompressed();
+            newTransitions[a].makeCompressed();
         }
+        if (!isProbability(newTransitions))
+            throw std::invalid_argument("Input transition matrix does not contain valid probabilities once near-zero entries are dropped.");
+
+        transitions_ = std::move(newTransitions);
     }
 
     template <IsNaive3DMatrix R>
